@@ -1,7 +1,7 @@
 INIT Init
 NEXT Next
-CONSTANTS MaxNodes = 4
-          MaxNodesOpt = 3
+CONSTANTS MaxNodes = 7
+          MaxNodesOpt = 6
           MaxDepth = 3
           Shards = 16
 INVARIANT SpecSane
